@@ -69,6 +69,10 @@ MODELS = [
         M(x=I(1)), Q(S('a')), ('s', 'tag:yaml.org,2002:null', 'null')]),
     ('top_any', Any, [], [M(k=Q(I(1), M(x=S('s'))))]),
     ('top_opt_date', Optional[datetime.date], [], [TS('2001-12-14')]),
+    ('typed', Z.Typed, [Z.Typed, Z.Ident], [
+        M(paths=Q(S('tmp')), names=Q(S('a')), m1=M(k=S('x')),
+          m2=M(k=S('v'))),
+    ]),
     ('order', Z.Order, [Z.Order, Z.Item], [
         M(('customer-name', S('x')),
           ('items', M(i1=F(1.5), i2=M(price=F(2.5), description=S('d')))),
@@ -90,7 +94,7 @@ MODELS = [
     ]),
 ]
 CORE = {m[0] for m in MODELS if not m[0].startswith('trap_')
-        and m[0] != 'order'}
+        and m[0] not in ('order', 'typed')}
 GROUP_C02 = (CORE - {'perm'}) | {'order'}
 GROUP_C04 = {'trap_loose', 'trap_any', 'trap_dict', 'trap_typed', 'loose',
              'top_any'}
